@@ -717,6 +717,7 @@ func (c *Ctx) canonicaliseOnce(depth int) *canonStats {
 			st.unrolled += nu
 			ns := splitArrays(f) + splitStructs(f)
 			np := promoteLocals(f)
+			np += splitFuncPhiCalls(f)
 			nt := 0
 			if !noThread[shortPkg(fnPkgPath(f))] {
 				nt = threadJumps(f)
@@ -2610,5 +2611,219 @@ func splitArrays(f *ssa.Function) int {
 		}
 	}
 	f.Locals = locals
+	return n
+}
+
+// ---- calls through a phi of functions ---------------------------------------------------------------------------------------
+//
+// `decide := policyA; if flag { decide = policyB }; ... decide(x)` leaves a call whose callee is a phi of function
+// constants. The call is split into one static call per alternative, selected by a synthetic comparison "callee == f_i":
+//
+//	B: ...; r = callee(args); rest      =>   B: ...; if callee == f1 goto C1 else C2
+//	                                         C1: r1 = f1(args); jump D      C2: r2 = f2(args); jump D
+//	                                         D: r = phi [C1: r1, C2: r2]; rest
+//
+// The next inlining pass then inlines the alternatives, and the guard "callee == f_i" stands for the conditions of the
+// phi's incoming edge that carries f_i (fnInfo.expandGuards, pathState.branch).
+
+// funcAlternatives: the module functions a call's callee value can be (through phis and type changes), or nil.
+func funcAlternatives(v ssa.Value) []*ssa.Function {
+	var out []*ssa.Function
+	seen := map[ssa.Value]bool{}
+	have := map[*ssa.Function]bool{}
+	ok := true
+	var walk func(v ssa.Value)
+	walk = func(v ssa.Value) {
+		if seen[v] || !ok {
+			return
+		}
+		seen[v] = true
+		switch x := v.(type) {
+		case *ssa.Phi:
+			for _, e := range x.Edges {
+				walk(e)
+			}
+		case *ssa.ChangeType:
+			walk(x.X)
+		case *ssa.Function:
+			if len(x.Blocks) == 0 || !inModule(x) {
+				ok = false
+				return
+			}
+			if !have[x] {
+				have[x] = true
+				out = append(out, x)
+			}
+		default:
+			ok = false
+		}
+	}
+	if _, isPhi := v.(*ssa.Phi); !isPhi {
+		return nil
+	}
+	walk(v)
+	if !ok || len(out) < 2 || len(out) > 4 {
+		return nil
+	}
+	return out
+}
+
+// funcConstOf: the function a value is, looking through type changes.
+func funcConstOf(v ssa.Value) *ssa.Function {
+	for {
+		switch x := v.(type) {
+		case *ssa.ChangeType:
+			v = x.X
+		case *ssa.Function:
+			return x
+		default:
+			return nil
+		}
+	}
+}
+
+// funcEqTest: cond is one of the synthetic comparisons made by splitFuncPhiCalls.
+func funcEqTest(cond ssa.Value) (ssa.Value, *ssa.Function, bool) {
+	bin, ok := cond.(*ssa.BinOp)
+	if !ok || bin.Op != token.EQL {
+		return nil, nil, false
+	}
+	f, isF := bin.Y.(*ssa.Function)
+	if !isF {
+		return nil, nil, false
+	}
+	if _, isSig := bin.X.Type().Underlying().(*types.Signature); !isSig {
+		return nil, nil, false
+	}
+	return bin.X, f, true
+}
+
+func splitFuncPhiCalls(f *ssa.Function) int {
+	n := 0
+	for changed := true; changed; {
+		changed = false
+		for _, b := range f.Blocks {
+			for idx, in := range b.Instrs {
+				call, ok := in.(*ssa.Call)
+				if !ok || call.Call.IsInvoke() {
+					continue
+				}
+				alts := funcAlternatives(call.Call.Value)
+				if alts == nil {
+					continue
+				}
+				mk := func(comment string) *ssa.BasicBlock {
+					nb := &ssa.BasicBlock{Comment: comment}
+					setField(nb, "parent", f)
+					f.Blocks = append(f.Blocks, nb)
+					return nb
+				}
+				put := func(nb *ssa.BasicBlock, i ssa.Instruction) {
+					setField(i, "block", nb)
+					nb.Instrs = append(nb.Instrs, i)
+				}
+				// D takes over the rest of b and b's successors
+				d := mk(b.Comment + ".called")
+				rest := append([]ssa.Instruction(nil), b.Instrs[idx+1:]...)
+				b.Instrs = b.Instrs[:idx]
+				d.Succs = b.Succs
+				for _, s := range d.Succs {
+					for i, p := range s.Preds {
+						if p == b {
+							s.Preds[i] = d
+						}
+					}
+				}
+				b.Succs = nil
+				var results []ssa.Value
+				var cbs []*ssa.BasicBlock
+				for i, alt := range alts {
+					cb := mk(fmt.Sprintf("%s.callee%d", b.Comment, i))
+					nc := *call
+					nc.Call.Value = alt
+					nc.Call.Args = append([]ssa.Value(nil), call.Call.Args...)
+					setField(&nc, "referrers", nil)
+					put(cb, &nc)
+					if canonOrigOf != nil {
+						if o, has := canonOrigOf[call]; has {
+							canonOrigOf[&nc] = o
+						} else {
+							canonOrigOf[&nc] = call
+						}
+					}
+					put(cb, &ssa.Jump{})
+					cb.Succs = []*ssa.BasicBlock{d}
+					d.Preds = append(d.Preds, cb)
+					results = append(results, &nc)
+					cbs = append(cbs, cb)
+				}
+				cur := b
+				for i := 0; i < len(alts)-1; i++ {
+					test := &ssa.BinOp{Op: token.EQL, X: call.Call.Value, Y: alts[i]}
+					setField(test, "typ", types.Typ[types.Bool])
+					setField(test, "pos", call.Pos())
+					put(cur, test)
+					put(cur, &ssa.If{Cond: test})
+					if i == len(alts)-2 {
+						cur.Succs = []*ssa.BasicBlock{cbs[i], cbs[i+1]}
+						cbs[i].Preds = []*ssa.BasicBlock{cur}
+						cbs[i+1].Preds = []*ssa.BasicBlock{cur}
+						break
+					}
+					nt := mk(fmt.Sprintf("%s.test%d", b.Comment, i+1))
+					cur.Succs = []*ssa.BasicBlock{cbs[i], nt}
+					cbs[i].Preds = []*ssa.BasicBlock{cur}
+					nt.Preds = []*ssa.BasicBlock{cur}
+					cur = nt
+				}
+				// the merged result
+				var merged ssa.Value
+				if call.Type() != nil {
+					if tup, isTup := call.Type().(*types.Tuple); !isTup || tup.Len() > 0 {
+						phi := &ssa.Phi{Comment: "callee result", Edges: results}
+						setField(phi, "typ", call.Type())
+						setField(phi, "pos", call.Pos())
+						put(d, phi)
+						merged = phi
+					}
+				}
+				for _, ri := range rest {
+					put(d, ri)
+					if merged != nil {
+						for _, op := range ri.Operands(nil) {
+							if *op == ssa.Value(call) {
+								*op = merged
+							}
+						}
+					}
+				}
+				// uses of the call in other blocks
+				if merged != nil {
+					for _, ob := range f.Blocks {
+						if ob == d {
+							continue
+						}
+						for _, oi := range ob.Instrs {
+							for _, op := range oi.Operands(nil) {
+								if *op == ssa.Value(call) {
+									*op = merged
+								}
+							}
+						}
+					}
+				}
+				for i, blk := range f.Blocks {
+					blk.Index = i
+				}
+				delete(domCache, f)
+				n++
+				changed = true
+				break
+			}
+			if changed {
+				break
+			}
+		}
+	}
 	return n
 }
